@@ -56,7 +56,7 @@ theorem unauthenticated_traffic_no_effect (s : St) (d : Datagram) (hun : d.unaut
 
 /-- the only thing the component may do with such a datagram is log a warning -/
 theorem unauthenticated_datagram_dropped (s : St) (d : Datagram) (h : d.unauthenticated = true) (hs : s.notServerTx d) :
-    (react s d).1 = s ∧ ∀ o ∈ (react s d).2, o = Out.warnBadMi ∨ o = Out.warnNoMi ∨ o = Out.warnBadFp ∨ o = Out.warnTruncAttr := by
+    (react s d).1 = s ∧ ∀ o ∈ (react s d).2, o = Out.warnBadMi ∨ o = Out.warnNoMi ∨ o = Out.warnBadFp ∨ o = Out.warnTruncAttr ∨ o = Out.warnMissingMi := by
   have h1 := react_unauthenticated s d h hs
   refine ⟨h1.1, ?_⟩
   intro o ho
@@ -90,23 +90,45 @@ theorem mi_after_fingerprint_counts_as_absent (s : St) (src : Nat) (m : Stun) (p
     simp [Datagram.unauthenticated, h1]
   exact ⟨h1, h2, h3, (react_unauthenticated s _ h3 (fun m' hm' => by cases hm'; exact hs)).1⟩
 
-/-- Why the pre-scan must stop at FINGERPRINT (documented so the two walks cannot drift apart silently): `decode` returns
-success at a good FINGERPRINT without having verified anything and never looks at what follows. -/
+/-- Why the pre-scan must stop at FINGERPRINT and must cover EVERY class (documented so the two walks cannot drift apart
+silently): the attribute loop of `decode` stops successfully at a good FINGERPRINT without having verified anything and never looks
+at what follows; since repo commit 80bab8b `decode` then rejects requests and success responses for lack of integrity, but
+Error responses and indications still pass — for those the pre-scan in handleDatagram is the only guard. -/
 theorem decode_alone_never_looks_behind_fingerprint (k : Bool) (pre rest : List Attr) (hpre : ∀ a ∈ pre, a = Attr.other) :
-    decodeWalk k false (pre ++ Attr.fingerprint true :: rest) = .ok := by
-  induction pre with
-  | nil => simp [decodeWalk]
-  | cons a p ih =>
-    have ha := hpre a (by simp)
-    subst ha
-    simpa [decodeWalk] using ih (fun b hb => hpre b (by simp [hb]))
+    decodeWalk k false (pre ++ Attr.fingerprint true :: rest) = .ok ∧
+    decodeKeyed k false (pre ++ Attr.fingerprint true :: rest) = .ok ∧
+    decodeKeyed k true (pre ++ Attr.fingerprint true :: rest) = .missingMi := by
+  have hs : decodeSawMi (pre ++ Attr.fingerprint true :: rest) = false := by
+    induction pre with
+    | nil => rfl
+    | cons a p ih =>
+      have ha := hpre a (by simp)
+      subst ha
+      simpa [decodeSawMi] using ih (fun b hb => hpre b (by simp [hb]))
+  have hw : decodeWalk k false (pre ++ Attr.fingerprint true :: rest) = .ok := by
+    clear hs
+    induction pre with
+    | nil => simp [decodeWalk]
+    | cons a p ih =>
+      have ha := hpre a (by simp)
+      subst ha
+      simpa [decodeWalk] using ih (fun b hb => hpre b (by simp [hb]))
+  simp [decodeKeyed, hw, hs]
+
+/-- behind the pre-scan `decode`'s new "Missing MESSAGE-INTEGRITY" rejection can never fire: when the pre-scan has found a
+MESSAGE-INTEGRITY the attribute loop meets the same one -/
+theorem decode_never_misses_mi_behind_prescan (k n : Bool) (attrs : List Attr) (h : prescan attrs = true) :
+    decodeKeyed k n attrs ≠ .missingMi := by
+  unfold decodeKeyed
+  cases hd : decodeWalk k false attrs <;> simp [decodeSawMi_eq_prescan, h]
+  exact decodeWalk_ne_missingMi k attrs false hd
 
 /-- **The conjunction of the two walks is sound:** whenever the pre-scan says "has MESSAGE-INTEGRITY" and `decode` succeeds,
 the message's protecting MESSAGE-INTEGRITY exists and was verified under the key for the message class. -/
 theorem accepted_means_verified (cls : Cls) (attrs : List Attr)
-    (h1 : prescan attrs = true) (h2 : decodeWalk (cls == .response || cls == .error) false attrs = .ok) :
+    (h1 : prescan attrs = true) (h2 : decodeKeyed (cls == .response || cls == .error) (cls == .request || cls == .response) attrs = .ok) :
     protectingMi attrs = some (validFor cls) := by
-  obtain ⟨st, hp, hc⟩ := accept_implies_protected _ attrs h1 h2
+  obtain ⟨st, hp, hc⟩ := accept_implies_protected _ attrs h1 (decodeKeyed_ok _ _ _ h2)
   rw [miCheck_ok, key_for_class] at hc
   rw [hp, hc]
 
@@ -125,7 +147,7 @@ theorem attributes_after_mi_ignored (s : St) (src : Nat) (m : Stun) (pre post : 
           = handleResponse s src ({ m with attrs := pre ++ [.mi st] } : Stun) := rfl
   rw [react_stun_peer s src ({ m with attrs := pre ++ .mi st :: post } : Stun) hs,
     react_stun_peer s src ({ m with attrs := pre ++ [.mi st] } : Stun) hs]
-  simp only [reactPeer, prescan_trailer pre post st, decodeWalk_trailer _ pre post st h, e1, e2]
+  simp only [reactPeer, prescan_trailer pre post st, decodeKeyed_trailer _ _ pre post st h, e1, e2]
 
 /-- … in particular the tampering that makes a controlled agent nominate: USE-CANDIDATE (or a PRIORITY) appended behind the valid
 MESSAGE-INTEGRITY of a genuine request changes nothing. -/
@@ -379,7 +401,7 @@ theorem honest_pair_connects_partial (aControlling : Bool) (component addrA addr
   have h2 : (addrB == addrA) = false := by simp [Ne.symm hne]
   cases aControlling <;>
     simp [honestNet, Net.deliver, Net.deliverRound, Net.opA, Net.opB, Net.emitA, Net.emitB, route, wire, run, step, init, addRemote,
-      St.addPair, sortDesc, insertDesc, connect, checkCandidates, performCheck, updatePair, react, reactPeer, prescan, decodeWalk, miCheck, Stun.decoded, parsedUc, parsedPrio, handleRequest,
+      St.addPair, sortDesc, insertDesc, connect, checkCandidates, performCheck, updatePair, react, reactPeer, prescan, decodeKeyed, decodeSawMi, decodeWalk, miCheck, Stun.decoded, parsedUc, parsedPrio, handleRequest,
       handleResponse, completion, findPair, St.connected, h1, h2]
 
 set_option linter.unusedSimpArgs false in
@@ -394,7 +416,7 @@ theorem honest_pair_carries_datagrams (aControlling : Bool) (component addrA add
   have h2 : (addrB == addrA) = false := by simp [Ne.symm hne]
   cases aControlling <;>
     simp [honestNet, Net.deliver, Net.deliverRound, Net.opA, Net.opB, Net.emitA, Net.emitB, route, wire, run, step, init, addRemote,
-      St.addPair, sortDesc, insertDesc, connect, checkCandidates, performCheck, updatePair, react, reactPeer, prescan, decodeWalk, miCheck, Stun.decoded, parsedUc, parsedPrio, handleRequest,
+      St.addPair, sortDesc, insertDesc, connect, checkCandidates, performCheck, updatePair, react, reactPeer, prescan, decodeKeyed, decodeSawMi, decodeWalk, miCheck, Stun.decoded, parsedUc, parsedPrio, handleRequest,
       handleResponse, completion, findPair, St.connected, sendApp, h1, h2]
 
 /-- **Connected is stable:** no operation and no datagram whatsoever (authenticated or not) other than the application's own
